@@ -554,7 +554,7 @@ def sc_config(work, binary, verdict, stats, seed, kind, nh, nk, nr, grams, write
     # near-miss variants of the covering paths (kept in addition to them, so the edge cover itself is undisturbed)
     tries = [q for p, q in ((p, sc_try_enter(p)) for p in paths) if len(q) != len(p)]
     random.Random(seed).shuffle(tries)
-    tries = tries[:1200 if tier == "quick" else 20000]
+    tries = tries[:500 if tier == "quick" else 10000]
     with LOCK:
         stats["near_miss_paths"] = stats.get("near_miss_paths", 0) + len(tries)
     paths = paths + tries
